@@ -347,7 +347,7 @@ pub fn run(ctx: &Ctx, replay: Option<&J>, chunked: bool) -> CheckResult {
         return CheckResult { evidence: ev, rule, assumptions, violations: vs };
     }
     if !chunked {
-        let cases = ctx.n(2_000_000, 60_000_000);
+        let cases = ctx.n(2_000_000, 200_000_000);
         let (ev, vs) = pt_run(
             ctx,
             "c05",
@@ -484,7 +484,7 @@ pub fn run(ctx: &Ctx, replay: Option<&J>, chunked: bool) -> CheckResult {
         ev.class_n("long-streams(>64KiB)", ctx.n(12, 200));
         return CheckResult { evidence: ev, rule, assumptions, violations: vs };
     }
-    let cases = ctx.n(1_000_000, 30_000_000);
+    let cases = ctx.n(1_000_000, 150_000_000);
     let strat = || {
         (
             prop::collection::vec(seg_strategy(), 1..7),
